@@ -65,7 +65,7 @@ def map_lookup(fd, key, value_size):
     k = ctypes.create_string_buffer(bytes(key), len(key))
     v = ctypes.create_string_buffer(value_size)
     try:
-        _bpf(1, struct.pack("<IQQQ", fd, _addr(k), _addr(v), 0))
+        _bpf(1, struct.pack("<I4xQQQ", fd, _addr(k), _addr(v), 0))
     except OSError as e:
         if e.errno == errno.ENOENT:
             return None
@@ -76,7 +76,7 @@ def map_lookup(fd, key, value_size):
 def map_update(fd, key, value, flags=0):
     k = ctypes.create_string_buffer(bytes(key), len(key))
     v = ctypes.create_string_buffer(bytes(value), len(value))
-    _bpf(2, struct.pack("<IQQQ", fd, _addr(k), _addr(v), flags))
+    _bpf(2, struct.pack("<I4xQQQ", fd, _addr(k), _addr(v), flags))
 
 
 _avail = None
